@@ -11,6 +11,7 @@ import (
 	"path/filepath"
 	"reflect"
 	"strings"
+	"time"
 
 	"github.com/mandykoh/prism"
 
@@ -267,6 +268,17 @@ func imageconvCmd(args []string) error {
 			}
 		}
 	}
+	// strips of more than 65,536 rows (any queue, counter or index sized for 16 bits gives way here)
+	for _, k := range kinds {
+		if k != "RGBA64" && k != "NRGBA" && k != "RGBA" && k != "YCbCr444" && k != "YCbCr420" && k != "Gray" {
+			continue
+		}
+		for ri, r := range []image.Rectangle{image.Rect(0, 0, 1, 65537), image.Rect(3, 0, 5, 70001)} {
+			for hi, h := range helpers {
+				sjobs = append(sjobs, sjob{k, r, [4]int{0, 0, 0, 0}, h, []int{1, 3, 16}[(ri+hi)%3]})
+			}
+		}
+	}
 	runStruct := parallel
 	if *serial != "" {
 		mf, err := os.Create(*serial)
@@ -294,7 +306,9 @@ func imageconvCmd(args []string) error {
 		before := append([]byte{}, img.Pix(parent)...)
 		var out image.Image
 		pan := ""
-		func() {
+		finished := make(chan struct{})
+		go func() {
+			defer close(finished)
 			defer func() {
 				if rr := recover(); rr != nil {
 					pan = fmt.Sprint(rr)
@@ -302,6 +316,13 @@ func imageconvCmd(args []string) error {
 			}()
 			out = j.h.run(src, j.par)
 		}()
+		select {
+		case <-finished:
+		case <-time.After(90 * time.Second):
+			// the call has not returned (alone it takes milliseconds): recorded like a panic; its
+			// goroutines are abandoned
+			pan = "the conversion did not return within 90 s"
+		}
 		ev := map[string]interface{}{"kind": "struct", "helper": j.h.name, "src": j.kind, "rect": []int{r.Min.X, r.Min.Y, r.Max.X, r.Max.Y},
 			"margins": j.m, "par": j.par, "panic": pan != ""}
 		if pan != "" {
